@@ -131,6 +131,17 @@ def cdrfileOp : Tok → String
           | none => "panic " ++ hexOfBytes b)
        | _ => "bad-op")
     | _ => "bad-op"
+  | "reuse" :: t =>                        -- one reader value decodes file A, then file B: it holds B
+    match pFile t with
+    | some (_, "|" :: t2) =>
+      (match pFile t2 with
+       | some (f, []) =>
+         let b := encodeFile f
+         (match decodeFile b with
+          | some g => "ok " ++ hexOfBytes b ++ " " ++ unwords (sFile g)
+          | none => "panic " ++ hexOfBytes b)
+       | _ => "bad-op")
+    | _ => "bad-op"
   | "afterfail" :: t =>                    -- file A written onto a directory (fails), then file B
     match pFile t with
     | some (_, "|" :: t2) =>
